@@ -22,3 +22,5 @@ def run(ctx: Ctx) -> None:
     prove_lemmas(ctx, "contracts.c04_lemmas", ["step_and", "step_or", "step_xor", "step_then",
                                               "invalid_needs_a_requirement_or_format_key", "canary_or_never_raises"])
     run_bounded(ctx, "C06")
+    from bounded import multipart_invalid
+    multipart_invalid.run(ctx, "C06")
